@@ -26,6 +26,10 @@
 (*                 every allowed run against the uncompressed emission.       *)
 (*   JudgeRejects  a run with a forbidden choice that still decodes is not    *)
 (*                 "ok" for the judge (encoder and decoder side agree).       *)
+(*   Chains        the pointer-chain measure of a part stream is the number   *)
+(*                 of pointers Names!DecName follows; PackImpl never needs    *)
+(*                 more hops than the name has labels and never points at a   *)
+(*                 pointer (the chain clause of JudgeStreamsH, MaxHops).      *)
 EXTENDS Compress
 
 CONSTANTS Scale,       \* 0: 3-name plans over 9 names; 1: 3-name plans over 13 names and 4-name plans over 7
@@ -132,6 +136,19 @@ PointersValid ==
 JudgeAccepts ==
   Done /\ dev = "none" => JudgeStreams(st.out, Unc.out, WithHints(sc), Unc.s, 0) = (IF Len(st.out) > Len(Unc.out) THEN "longer" ELSE "ok")
 
+\* Pointer chains (Compress!Hops): the measure read off a part stream is the decoder's (Names!DecName follows that many
+\* pointers); a run that followed PackImpl points at first occurrences only -- every pointer lands on a literal label, no
+\* pointer leads straight to a pointer, and no name is read through more pointers than it has labels behind its literal
+\* ones (so PackImpl stays within Compress!MaxHops whatever the message: a name has at most MaxName \div 2 labels).
+Chains ==
+  dev = "none" =>
+    LET s == WithHints(sc) IN
+    \A x \in NameParts :
+      /\ Hops(s, x) = DecName(st.out, sc[x].a).hops
+      /\ impl => /\ Hops(s, x) <= Len(s[x].name) - Len(s[x].lits)
+                 /\ ~ChainDegenerate(s, x)
+                 /\ s[x].ptr # -1 => s[x].tj <= Len(s[s[x].tk].lits)
+
 \* what an honest reader makes of the run with the forbidden choice: the last name part as DecName reads it
 Honest == LET d == DecName(st.out, sc[Len(sc)].a) IN
           IF d.ok THEN [ok |-> TRUE, s |-> [sc EXCEPT ![Len(sc)].name = d.name]] ELSE [ok |-> FALSE]
@@ -147,5 +164,7 @@ JudgeRejects ==
 NoPointerEver   == \A x \in NameParts : sc[x].ptr = -1
 NoLimitCrossed  == Done /\ dev = "none" => Len(st.out) <= MaxOff
 AlwaysImpl      == Done /\ dev = "none" => impl
+NoChain         == dev = "none" => ChainStageN(WithHints(sc), 1) = "ok"
+NoDegenerate    == dev = "none" => \A x \in NameParts : ~ChainDegenerate(WithHints(sc), x)
 NoDeviationDecodes == dev # "none" => ~Honest.ok
 =============================================================================
